@@ -171,7 +171,7 @@ impl Property for C17Prop {
                 let left = late_left.clone();
                 des::spawn(async move {
                     for (raw, kind) in late {
-                        des::delay("late.gap", &[1_000, 0, 50_000, 400_000]).await;
+                        des::delay("late.gap", &[0, 1_000, 50_000, 400_000]).await;
                         if crate::wire::judge(&raw).is_some() {
                             ctx::probe("valid_frame_arrives_while_consumer_waits");
                         } else {
